@@ -15,3 +15,10 @@ ST_PROBES = {
  'WAKEUP_CONSUME_2': 'DISPATCH_WAKEUP_CONSUME_2', 'WAKEUP_MAKE_DIRTY': 'DISPATCH_WAKEUP_MAKE_DIRTY', 'WAKEUP_BARRIER_COMPLETE': 'DISPATCH_WAKEUP_BARRIER_COMPLETE',
  'INVOKE_STEALING': 'DISPATCH_INVOKE_STEALING', 'INVOKE_MANAGER_DRAIN': 'DISPATCH_INVOKE_MANAGER_DRAIN',
 }
+HIST_PROBES = dict(ST_PROBES)
+HIST_PROBES.update({
+ 'OFF_tsd_queue': 'offsetof(struct dispatch_tsd, dispatch_queue_key)', 'OFF_tsd_frame': 'offsetof(struct dispatch_tsd, dispatch_frame_key)', 'OFF_tsd_basepri': 'offsetof(struct dispatch_tsd, dispatch_basepri_key)',
+ 'OFF_tsd_context': 'offsetof(struct dispatch_tsd, dispatch_context_key)', 'OFF_tsd_deferred': 'offsetof(struct dispatch_tsd, dispatch_deferred_items_key)', 'OFF_tsd_wlh': 'offsetof(struct dispatch_tsd, dispatch_wlh_key)',
+ 'SZ_dic': 'sizeof(struct dispatch_invoke_context_s)', 'INVOKE_WORKER_FLAGS': 'DISPATCH_INVOKE_WORKER_DRAIN | DISPATCH_INVOKE_REDIRECTING_DRAIN', 'SZ_attr': 'sizeof(struct dispatch_queue_attr_s)',
+ 'SZ_vtable': 'sizeof(struct dispatch_lane_vtable_s)', 'OFF_vt_wakeup': 'offsetof(struct dispatch_lane_vtable_s, _os_obj_vtable.dq_wakeup)', 'OFF_vt_push': 'offsetof(struct dispatch_lane_vtable_s, _os_obj_vtable.dq_push)',
+})
